@@ -75,7 +75,11 @@ Value& OpPUSExpression::value(Context& ctx) const
       {
         if (a1.isNull() || a2.isNull())
           return LVAL2(Value(Value::type_integer), a1, a2);
-        Value val(Integer(*a1.integer() >> *a2.integer()));
+        /* zero fill; a negative displacement shifts to the other direction;
+         * a displacement of 64 bits or more shifts all bits out */
+        uint64_t u = uint64_t(*a1.integer());
+        Integer n = *a2.integer();
+        Value val(Integer((n >= 64 || n <= -64) ? 0 : (n >= 0 ? (u >> n) : (u << (-n)))));
         return LVAL2(val, a1, a2);
       }
       default:
